@@ -74,18 +74,19 @@ type wakeMsg struct{ poison bool }
 
 // G is a managed goroutine.
 type G struct {
-	id     int
-	cid    uint64 // canonical id: hash(parent cid, spawn index)
-	wake   chan wakeMsg
-	op     *pendingOp
-	done   bool
-	clock  vclock
-	events int
-	spawns int
-	made   int
-	lazyAt int
-	lazyN  int
-	x      *Exec
+	id       int
+	cid      uint64 // canonical id: hash(parent cid, spawn index)
+	wake     chan wakeMsg
+	op       *pendingOp
+	done     bool
+	clock    vclock
+	events   int
+	spawns   int
+	made     int
+	lastKind opKind
+	lazyAt   int
+	lazyN    int
+	x        *Exec
 }
 
 type vclock map[uint64]int
@@ -136,8 +137,12 @@ type Options struct {
 	Deadline time.Time
 	// MaxExecutions: safety cap (0 = none).
 	MaxExecutions int
-	// Prefixes: when non-nil, explore only the subtrees below these choice prefixes.
+	// Prefix: explore only the subtree below this choice prefix.
 	Prefix []int
+	// ShardN > 1: nodes at tree level 2 are owned by hash(prefix) % ShardN; this
+	// process explores only those owned by ShardIdx (levels 0 and 1 are executed
+	// by every shard). Collectively the shards cover the whole bounded space.
+	ShardIdx, ShardN int
 }
 
 // Outcome of one execution.
@@ -176,6 +181,8 @@ type Exec struct {
 	cache    map[[2]uint64]int8
 	cacheOff bool
 	maxG     int
+	altKeys  map[int][][2]uint64 // predicted successor state keys per scheduling choice
+	selfErr  string
 }
 
 var theExec atomic.Pointer[Exec]
@@ -564,14 +571,48 @@ func (x *Exec) schedule(caller *G) *G {
 		x.finish("deadlock", strings.Join(parked, " "))
 		return nil
 	}
-	// happens-before state caching (only beyond the replayed prefix)
-	if !x.opts.NoCache && x.cache != nil && len(x.choices) >= len(x.prefix) {
-		key := [2]uint64{x.fp1, x.fp2}
-		if curEnabled {
-			key[0] = mix(key[0], x.current.cid)
+	caching := !x.opts.NoCache && x.cache != nil
+	cost := 0
+	if curEnabled {
+		cost = 1
+	}
+	c := 0
+	var predicted [2]uint64
+	if len(enabled) > 1 {
+		idx := len(x.choices)
+		var keys [][2]uint64
+		if caching && idx >= len(x.prefix) {
+			// predicted keys of the successor states of every alternative: lets the
+			// explorer skip alternatives whose successor is already covered
+			keys = make([][2]uint64, len(enabled))
+			for k, g := range enabled {
+				if key, ok := x.predict(g); ok {
+					keys[k] = key
+				}
+			}
+			if x.altKeys == nil {
+				x.altKeys = map[int][][2]uint64{}
+			}
+			x.altKeys[idx] = keys
 		}
-		// the announced operations are part of the state only through the
-		// history, which the fingerprint covers.
+		c = x.choose(len(enabled), "sched", cost)
+		if keys != nil {
+			predicted = keys[c]
+		}
+	}
+	next := enabled[c]
+	if curEnabled && next != x.current {
+		x.preempts++
+	}
+	x.current = next
+	x.perform(next)
+	// happens-before state caching: the state is (trace so far, who runs next);
+	// only beyond the replayed prefix
+	if caching && len(x.choices) >= len(x.prefix) {
+		key := mkKey(x.fp1, x.fp2, next.cid)
+		if predicted != ([2]uint64{}) && predicted != key && x.selfErr == "" {
+			x.selfErr = fmt.Sprintf("successor key prediction mismatch for %s of g%d", kindNames[opKindOf(next)], next.id)
+		}
 		used := int8(x.preempts)
 		if x.preempts > 120 {
 			used = 120
@@ -583,24 +624,157 @@ func (x *Exec) schedule(caller *G) *G {
 			x.cache[key] = used
 		}
 	}
-	cost := 0
-	if curEnabled {
-		cost = 1
-	}
-	c := 0
-	if len(enabled) > 1 {
-		c = x.choose(len(enabled), "sched", cost)
-	}
-	next := enabled[c]
-	if curEnabled && next != x.current {
-		x.preempts++
-	}
-	x.current = next
-	x.perform(next)
 	if next != caller {
 		next.wake <- wakeMsg{}
 	}
 	return next
+}
+
+func mkKey(fp1, fp2, cid uint64) [2]uint64 { return [2]uint64{mix(fp1, cid), fp2 + cid} }
+
+func opKindOf(g *G) opKind {
+	if g.lastKind >= 0 {
+		return g.lastKind
+	}
+	return opStart
+}
+
+func eventHash(cid uint64, events int, what uint64, clock vclock) (uint64, uint64) {
+	var h1, h2 uint64
+	for k, v := range clock {
+		e := mix(k, uint64(v))
+		h1 += e
+		h2 += mix(e, 0x51ED270B)
+	}
+	ev := mix(mix(cid, uint64(events)), what)
+	return mix(ev, h1), mix(mix(ev, 0xA0761D6478BD642F), h2)
+}
+
+// plan describes the events that performing g's announced operation produces,
+// when that is determined without further choices.
+type plan struct {
+	ok      bool
+	what    uint64
+	clocks  []*vclock
+	partner *G
+	pwhat   uint64
+}
+
+func (x *Exec) planSend(g *G, c *chanState) plan {
+	what := mix(10, c.id)
+	if c.closed {
+		return plan{ok: true, what: what, clocks: []*vclock{&c.clock}}
+	}
+	if ws := x.waiters(g, c, false); len(ws) > 0 && len(c.buf) == 0 {
+		if len(ws) > 1 {
+			return plan{}
+		}
+		return plan{ok: true, what: what, clocks: []*vclock{&c.clock}, partner: ws[0].g, pwhat: mix(11, c.id)}
+	}
+	return plan{ok: true, what: what, clocks: []*vclock{&c.clock}}
+}
+
+func (x *Exec) planRecv(g *G, c *chanState) plan {
+	what := mix(11, c.id)
+	if c.foreign != nil {
+		return plan{ok: true, what: what, clocks: []*vclock{&c.clock}}
+	}
+	if len(c.buf) > 0 {
+		if ws := x.waiters(g, c, true); len(ws) > 0 {
+			if len(ws) > 1 {
+				return plan{}
+			}
+			return plan{ok: true, what: what, clocks: []*vclock{&c.clock}, partner: ws[0].g, pwhat: mix(10, c.id)}
+		}
+		return plan{ok: true, what: what, clocks: []*vclock{&c.clock}}
+	}
+	if ws := x.waiters(g, c, true); len(ws) > 0 {
+		if len(ws) > 1 {
+			return plan{}
+		}
+		return plan{ok: true, what: what, clocks: []*vclock{&c.clock}, partner: ws[0].g, pwhat: mix(10, c.id)}
+	}
+	return plan{ok: true, what: what, clocks: []*vclock{&c.clock}}
+}
+
+func (x *Exec) plan(g *G) plan {
+	op := g.op
+	if op.completed && op.kind != opPipeWrite {
+		return plan{ok: true, what: 30}
+	}
+	switch op.kind {
+	case opStart:
+		return plan{ok: true, what: 1}
+	case opPoint:
+		return plan{ok: true, what: mix(2, hashStr(op.label)), clocks: []*vclock{&op.obj.clock}}
+	case opChoice:
+		return plan{ok: true, what: 3}
+	case opSend:
+		return x.planSend(g, op.ch)
+	case opRecv:
+		return x.planRecv(g, op.ch)
+	case opClose:
+		return plan{ok: true, what: mix(4, op.ch.id), clocks: []*vclock{&op.ch.clock}}
+	case opSelect:
+		var en []int
+		for i, sc := range op.cases {
+			if sc.send && x.canSend(g, sc.ch) || !sc.send && x.canRecv(g, sc.ch) {
+				en = append(en, i)
+			}
+		}
+		switch len(en) {
+		case 0:
+			return plan{ok: true, what: 5}
+		case 1:
+			if op.cases[en[0]].send {
+				return x.planSend(g, op.cases[en[0]].ch)
+			}
+			return x.planRecv(g, op.cases[en[0]].ch)
+		}
+		return plan{}
+	case opLock:
+		if op.mu != nil {
+			return plan{ok: true, what: mix(6, op.mu.obj.id), clocks: []*vclock{&op.mu.obj.clock}}
+		}
+		return plan{ok: true, what: mix(6, op.rw.obj.id), clocks: []*vclock{&op.rw.obj.clock}}
+	case opRLock:
+		return plan{ok: true, what: mix(7, op.rw.obj.id), clocks: []*vclock{&op.rw.obj.clock}}
+	case opWait:
+		return plan{ok: true, what: mix(8, op.wg.obj.id), clocks: []*vclock{&op.wg.obj.clock}}
+	case opPipeRead:
+		return plan{ok: true, what: mix(20, op.pipe.obj.id), clocks: []*vclock{&op.pipe.obj.clock}}
+	case opPipeWrite:
+		return plan{ok: true, what: mix(21, op.pipe.obj.id), clocks: []*vclock{&op.pipe.obj.clock}}
+	case opPipeClose:
+		return plan{ok: true, what: mix(22, op.pipe.obj.id), clocks: []*vclock{&op.pipe.obj.clock}}
+	}
+	return plan{}
+}
+
+// predict computes the key of the state reached by performing g's operation
+// and handing the token to g, without changing anything.
+func (x *Exec) predict(g *G) ([2]uint64, bool) {
+	p := x.plan(g)
+	if !p.ok {
+		return [2]uint64{}, false
+	}
+	gc := g.clock.copyOf()
+	gc[g.cid] = g.events + 1
+	for _, c := range p.clocks {
+		gc.join(*c)
+	}
+	d1, d2 := eventHash(g.cid, g.events+1, p.what, gc)
+	fp1, fp2 := x.fp1+d1, x.fp2+d2
+	if p.partner != nil {
+		w := p.partner
+		wc := w.clock.copyOf()
+		wc[w.cid] = w.events + 1
+		wc.join(gc)
+		e1, e2 := eventHash(w.cid, w.events+1, p.pwhat, wc)
+		fp1 += e1
+		fp2 += e2
+	}
+	return mkKey(fp1, fp2, g.cid), true
 }
 
 // event records one executed operation of g for the happens-before fingerprint.
@@ -618,20 +792,15 @@ func (x *Exec) event(g *G, what uint64, clocks []*vclock) {
 			(*c)[k] = v
 		}
 	}
-	var h1, h2 uint64
-	for k, v := range g.clock {
-		e := mix(k, uint64(v))
-		h1 += e
-		h2 += mix(e, 0x51ED270B)
-	}
-	ev := mix(mix(g.cid, uint64(g.events)), what)
-	x.fp1 += mix(ev, h1)
-	x.fp2 += mix(mix(ev, 0xA0761D6478BD642F), h2)
+	d1, d2 := eventHash(g.cid, g.events, what, g.clock)
+	x.fp1 += d1
+	x.fp2 += d2
 }
 
 // perform applies the state change of g's announced operation.
 func (x *Exec) perform(g *G) {
 	op := g.op
+	g.lastKind = op.kind
 	if op.completed && op.kind != opPipeWrite {
 		// already performed by the partner; resuming is a transition of its own
 		x.event(g, 30, nil)
